@@ -231,8 +231,16 @@ def p_reuse(ctxs, mode):
     return None
 
 
+def p_handmade_spend(kind_i, n_in, n_out, idx, hts, salt, nalt=0):
+    """spends assembled by hand (not through the signing API) whose signatures carry DIFFERENT hash types and are made
+    over an independent reference digest: the properly signed spend verifies, a signature whose hash-type label
+    was changed does not (shared with C05: harness/props/c05.py p_verifier_digest)"""
+    from props import c05 as _c05
+    return _c05.p_verifier_digest(kind_i, n_in, n_out, idx, hts, salt, nalt)
+
+
 PROPS = {"valid_spend": p_valid_spend, "unauthorised": p_unauthorised, "multisig_matching": p_multisig_matching,
-         "reuse": p_reuse}
+         "reuse": p_reuse, "handmade_spend": p_handmade_spend}
 
 
 # ----------------------------------------------------------------- building spends
@@ -587,6 +595,15 @@ def generate(ctx):
                 args = [keys, sigs, [rw if rw else [0] for rw in rows]]
                 yield ("corr", "match_sigs", args)
                 yield ("prop", "multisig_matching", args)
+    # hand-assembled spends with mixed hash types (signing side = independent reference digests)
+    from props import c05 as _c05
+    combos = [[1, 0x82], [0x83, 1], [3, 2], [0, 0x81], [2, 0x83], [0x81, 3]]
+    for kind_i, kname in enumerate(_c05.VD_KINDS):
+        for j in range(ctx.n(1, 6)):
+            n_in, n_out, idx = [(2, 1, 1), (3, 2, 2), (1, 1, 0), (2, 3, 0)][(j + kind_i) % 4]
+            ctx.label("handmade_spend/" + kname)
+            yield ("prop", "handmade_spend", [kind_i, n_in, n_out, idx, combos[(j + kind_i) % len(combos)],
+                                              1000 + 17 * kind_i + j, 1 if ctx.tier == "quick" else 0])
     # spends
     plan = []
     for kind in KINDS_SINGLE:
